@@ -1079,25 +1079,42 @@ Definition stmt_expr (c : ctx) : prog (stmt * ctx) :=
   let* '(v, c1) := expression c in
   ok (SExpr v, c1).
 
-Definition stmt_assignment (c : ctx) : prog (stmt * ctx) :=
-  let* '(target, c1) := assignable_p c in
-  match assign_op (token c1) with
-  | Some op =>
-      let* '(v, c2) := expression (skip 1 c1) in
-      ok (SAssign op target v, c2)
-  | None => praise c1
-  end.
+(* expression_after: the rest of an expression whose initial value [lhs] has been parsed, [c1] the context after it
+   (the second half of parse_precedence at the lowest precedence) *)
+Definition expression_after (c1 : ctx) (lhs : expr) : prog (expr * ctx) := call_E (QLoop (pt_entry T) lhs c1).
 
-(* probe with `assignable`; only if it succeeds and an assignment operator follows is the statement
-   parsed (again, from the start) as an assignment *)
+(* probe with `assignable` and keep what it parsed: an assignment continues after the target; any other statement
+   that does not start with a blob instantiation (the look-ahead of prefix) is an expression that starts with this
+   assignable; if the probe fails on an identifier that does not start a blob instantiation, the expression parser
+   would fail in the same way *)
 Definition stmt_assign_or_expr (c : ctx) : prog (stmt * ctx) :=
   ptry (assignable_p c)
-       (fun '(_, c1) =>
+       (fun '(target, c1) =>
           match assign_op (token c1) with
-          | Some _ => stmt_assignment c
-          | None => stmt_expr c
+          | Some op =>
+              let* '(v, c2) := expression (skip 1 c1) in
+              ok (SAssign op target v, c2)
+          | None =>
+              match type_assignable c with
+              | Fuel => Ret Fuel
+              | Panic => Ret Panic
+              | probe =>
+                  if (match probe with Ok (_, cb) => is_k KLeftBrace cb | _ => false end) then stmt_expr c
+                  else let* '(v, c2) := expression_after c1 (EGet target) in ok (SExpr v, c2)
+              end
           end)
-       (fun _ _ => stmt_expr c).
+       (fun c' es =>
+          match token c with
+          | TIdent _ =>
+              match type_assignable c with
+              | Fuel => Ret Fuel
+              | Panic => Ret Panic
+              | probe =>
+                  if (match probe with Ok (_, cb) => is_k KLeftBrace cb | _ => false end) then stmt_expr c
+                  else reraise c' es
+              end
+          | _ => stmt_expr c
+          end).
 
 Definition step_stmt (c0 : ctx) : prog out :=
   let '(c, old) := push_nl false c0 in
